@@ -245,9 +245,19 @@ def coq_eval_cases(tag: str, coq_module: str, cases: list[list[int]], expected: 
     d.mkdir(exist_ok=True)
     ok = True
     log = ""
-    for i in range(0, len(cases), chunk):
-        cs = cases[i:i + chunk]
-        ex = expected[i:i + chunk]
+    # chunks are bounded both in cases and in literal size (a multi-100kB list literal overflows coqc's stack)
+    bounds, start, size = [], 0, 0
+    for j, (c, e) in enumerate(zip(cases, expected)):
+        sz = len(c) + len(e)
+        if j > start and (j - start >= chunk or size + sz > 12000):
+            bounds.append((start, j))
+            start, size = j, 0
+        size += sz
+    if len(cases) > start:
+        bounds.append((start, len(cases)))
+    for (i, j) in bounds:
+        cs = cases[i:j]
+        ex = expected[i:j]
         f = d / f"cases_{tag}_{os.getpid()}_{i}.v"
         body = (
             f"From AV Require Import Base {coq_module}.\nOpen Scope Z_scope.\n"
@@ -256,7 +266,7 @@ def coq_eval_cases(tag: str, coq_module: str, cases: list[list[int]], expected: 
             f"Goal map {coq_module}.{entry} inputs = expected.\nProof. vm_compute. reflexivity. Qed.\n"
         )
         f.write_text(body)
-        rc, out = sh(["timeout", "600", "coqc", "-Q", str(COQ), "AV", str(f)], cwd=d)
+        rc, out = sh(["bash", "-c", f"ulimit -s unlimited 2>/dev/null; exec timeout 600 coqc -Q {COQ} AV {f}"], cwd=d)
         for ext in (".v", ".vo", ".vok", ".vos", ".glob"):
             try:
                 f.with_suffix(ext).unlink()
